@@ -159,6 +159,14 @@ def is_pred(H, I, i, of):
 
 
 def pred_setup(ex, p):
+    # anchors: the contract's spec predicates are tied to these two membership tests; if the code states them differently (a
+    # harmless rewrite, or a real change) the unit is UNDECIDED, not refuted - the bounded legs decide then
+    import ast as _ast
+    from pyvc import source as _source
+    txt = _ast.unparse(_source.get_func(PRED).node)
+    for anchor in ("insn.opname not in no_fallthrough", "insn.opcode in dis.hasjrel + dis.hasjabs"):
+        if anchor not in txt:
+            raise KeyError(f"contract anchor lost: predecessors no longer tests `{anchor}`")
     I = sym_seq(p, "insns", "list")
     H0 = p.snap()
     def entry(pth, j):
